@@ -555,7 +555,8 @@ def run(ctx: Any, prog: Program) -> None:
                       'a string whose text meets that condition is refused although escape_text writes it', func=f'Tokenizer.{q10}', text=f'{q10}: raise only at end of input')
 
     # ---- T3/T4/T5: transition function of _handle_string ------------------------------------------
-    hs = tk.func('Tokenizer._handle_string')
+    from engine.model import inline_loop_exits as _ile
+    hs = _ile(tk.func('Tokenizer._handle_string'))          # `break` + `return X` after the loop reads as `return X` in the loop
     # what the handler returns as the string's text is the joined characters themselves: a module-level function applied to them that can return
     # anything but its argument (a normaliser, a stripper, a case fold) rewrites content the writer put there on purpose
     for r_ in [x for x in ast.walk(hs) if isinstance(x, ast.Return) and isinstance(x.value, ast.Tuple) and len(x.value.elts) == 2 and U(x.value.elts[0]).endswith('STRING')]:
